@@ -22,7 +22,8 @@ RULE = ("k-centers only (function and estimator form): 2..12 distinct integer po
         "the radii the greedy run attains, cold start and warm start from 1..3 frames, with and without the triangle shortcut. "
         "Oracle: independent replay of farthest-first with first-maximum ties on the implementation's own distance matrix, "
         "exact stop rule, plain == shortcut, brute-force optimum over all k-subsets for the 2-approximation. "
-        "non-trivial := n >= 4 and >= 2 centres")
+        "non-trivial := n >= 4 and >= 2 centres"
+        " Input-class axes, each forced in every run for every entry point (cluster_common.gen_axis_streams): memory layout of the data (column subset / strided rows / Fortran / transposed / negative stride / strided columns / read-only; same values, the metric is evaluated on a fresh contiguous copy); container of the warm-start centres (2-D array or md.Trajectory slice, Python list of frames, the .centers list of an earlier result) with argument-unchanged checks on the list and the earlier result; a metric that returns its result in one reused float64 buffer; estimator-reuse histories (constructed with other parameters, optional earlier fit on the same or other data, parameters changed through set_params / attribute assignment, second fit) compared with the function form called with the current parameters; tiny length scales (x 2^-14..2^-20) incl. k-medoids started from labels+distances without centre indices. Every run of the real code is bounded by a watchdog (10 s; key does-not-terminate).")
 SHARD = 60
 FINDING_F1 = "two-approx-with->=2-initial-centers"
 
@@ -73,6 +74,7 @@ def generate(rng, tier):
             if c["cutoff"] == 0 and c["nclu"] is None:
                 c["cutoff"] = 0.5
         cases.append(c)
+    cases += cc.gen_axis_streams(rng, ["kcenters", "traj"], reps=2 if tier == "quick" else 12)
     return cases
 
 
@@ -108,7 +110,7 @@ def oracle(c, out):
     if "err" in out:
         if c["kind"] == "kcenters" and c["nclu"] is None and c["cutoff"] is None and out["err"] == "ImproperlyConfigured":
             return []      # no stopping criterion at all: rejection is the documented behaviour
-        return [("impl-error", "%s: %s" % (out["err"], out.get("msg")))]
+        return [cc.err_failure(out)]
     fails = []
     D = [[F(v) for v in row] for row in out["D"]]
     n = c["n"]
@@ -140,6 +142,7 @@ def oracle(c, out):
             fails.append((key, "radius %s > 2 x optimum %s for k=%d" % (R, best, k)))
     if not (c.get("ti") and not metric):
         fails += cc.inv_failures(out)
+    fails += cc.hist_failures(c, out)
     return fails
 
 
@@ -160,4 +163,6 @@ def tags(c, out):
     return t
 
 
-ESSENTIAL_TAGS = ["md-trajectory-input", "near-half-boundary", "count", "radius", "both", "warm-init", "ti", "estimator-form", "matrix", "euclidean", "manhattan"]
+ESSENTIAL_TAGS = ["init-array", "init-list", "init-result", "warm-init-md-trajectory", "non-contiguous-data", "buffer-reusing-metric",
+                  "estimator-history", "estimator-refit-same", "estimator-refit-other",
+                  "md-trajectory-input", "near-half-boundary", "count", "radius", "both", "warm-init", "ti", "estimator-form", "matrix", "euclidean", "manhattan"]
